@@ -42,7 +42,7 @@ def union_specs(tier):
     ]
     if tier == 'thorough':
         for sp in specs:
-            sp['lattice'] = 64 if sp['d'] == 2 else 16
+            sp['lattice'] = 96 if sp['d'] == 2 else 20
         specs += [
             dict(family='banana', d=2, n=90, member='Ellipsoid', unit=True, enlarge=1.5, splits=5,
                  lattice=64),
